@@ -10,3 +10,5 @@ import Generated.SparseSrc
 import Generated.SparseSrcRun
 import Generated.LayoutSrc
 import Generated.LayoutSrcRun
+import Generated.UmapSrc
+import Generated.UmapSrcRun
